@@ -209,3 +209,18 @@ def run(ctx):
         a, b = g0["nodes"][i]["name"], g1["nodes"][i]["name"]
         if a != b and not (q and b is not None and a is not None and b.split("<")[0].endswith("." + a.split("<")[0])):
             ctx.violate("config", "name-differs-beyond-extension-prefix", {"node": i, "default": a, "config": b})
+    if ch.coin(1, 3, "edit-in-place-then-render"):
+        # render, change an operation / metadata in place (as resolve_extensions or a client would), render again
+        from hugr import ops as hops
+        leaves = [n for n in h if isinstance(h[n].op, hops.Custom) and not h.children(n)]
+        if leaves:
+            n = ch.pick(leaves, "which-leaf")
+            old = h[n].op
+            h[n].op = hops.Custom("Renamed" + old.op_name, old.signature, old.description, old.extension, old.args)
+            h[n].metadata["edited"] = "yes"
+            ctx.probe("op_replaced_in_place_between_renders")
+            ctx.ev("client", "h[n].op = ...; metadata edit", n.idx)
+            doc = json.loads(h.to_json())
+            g2 = check_render(ctx, h, doc, "default-after-in-place-edit", None)
+            if g2 is None or ctx.violations:
+                return
